@@ -278,11 +278,44 @@ EvRound == /\ IsEvent("round")
            /\ acc' = IF Rec[l].kind = "mark" THEN [p \in DOMAIN acc |-> [out |-> <<>>, nbytes |-> 0, calls |-> <<>>, shas |-> <<>>]] ELSE acc
            /\ UNCHANGED <<tms, lasts, allowed, pend>>
 
-EvOther == /\ \E e \in {"note", "flat", "flatret", "struct"} : IsEvent(e)
+\* C13, last clause: parse_bytes_as_netflow_common_flowsets = the in-order concatenation of the common
+\* flows of the non-error packets of the buffer (per-packet views taken on a twin with the same caches)
+EvFlat == /\ IsEvent("flat")
+          /\ pend' = << [p |-> Rec[l].p, buf |-> Rec[l].buf] >>
+          /\ UNCHANGED <<tms, lasts, allowed, acc>>
+EvFlatRet == /\ IsEvent("flatret")
+             /\ pend # <<>> /\ pend[1].p = Rec[l].p
+             /\ Emit(IF Rec[l].flows = Flatten(Rec[l].per_item) THEN {} ELSE {<<"C13", "flat", "differs", "">>})
+             /\ tms' = [tms EXCEPT ![Rec[l].p] = TmFor(Rec[l].caches, Rec[l].p)]
+             /\ pend' = <<>>
+             /\ UNCHANGED <<lasts, allowed, acc>>
+
+\* C08, second half: a V5/V7 structure whose count equals its number of records exports to exactly the
+\* bytes the specification's encoder produces, and parsing those bytes yields an equal structure
+StructFindings(ev) ==
+  LET ver == ev.v
+      it == ev.item
+      kind == IF ver = 5 THEN "v5" ELSE "v7"
+      hl == FixedHdrLayout(ver)
+      hdr == [n \in LayoutNames(hl) |-> IF n = "count" THEN B16(it.hdr.count) ELSE it.hdr[n]]
+      want == EncodeFixed(ver, hdr, it.recs) IN
+  IF it.hdr.count # Len(it.recs) THEN {}
+  ELSE (IF ev.bytes # want
+          THEN LET d == FirstDiffOff(ev.bytes, want) IN
+               {<<"C08", kind, "struct.encode", IF d < 0 THEN "length" ELSE FixedFieldAt(ver, d)>>}
+          ELSE {})
+       \cup (IF Len(ev.back) # 1 \/ ev.back[1].k # kind THEN {<<"C08", kind, "struct.roundtrip", "not-one-packet">>}
+             ELSE IF ev.back[1].hdr # it.hdr \/ ev.back[1].recs # it.recs THEN {<<"C08", kind, "struct.roundtrip", "differs">>}
+             ELSE {})
+EvStruct == /\ IsEvent("struct")
+            /\ Emit(StructFindings(Rec[l]))
+            /\ UNCHANGED <<tms, lasts, allowed, pend, acc>>
+
+EvOther == /\ IsEvent("note")
            /\ UNCHANGED <<tms, lasts, allowed, pend, acc>>
 
 TraceNext == EvReset \/ EvNew \/ EvAllow \/ EvCall \/ EvParsed \/ EvRet \/ EvRetLight \/ EvRetBig \/ EvToolCrash
-             \/ EvDied \/ EvRound \/ EvOther
+             \/ EvDied \/ EvRound \/ EvFlat \/ EvFlatRet \/ EvStruct \/ EvOther
 TraceSpec == TraceInit /\ [][TraceNext]_vars
 
 TraceAccepted ==
